@@ -376,9 +376,11 @@ def sweep_expand(cell):
     rec = recs[3]
     excs = EXC_SERIAL if m in SERIAL_ONLY else EXC_ALL
     yield base
-    for tag, faults in single_faults(rec, exc_classes=excs,
-                                     reply_kinds=['drop', 'drop_request', 'err_bang', 'err_named', 'stale_instead',
-                                                  'stale_hex', 'stale_front', 'stale_near', 'late26', 'd25', 'd1']):
+    kinds = ['drop', 'drop_request', 'err_bang', 'err_named', 'stale_instead', 'stale_hex', 'stale_front',
+             'stale_near', 'late26', 'd25', 'd1']
+    if m == 'query':
+        kinds += ['glued', 'glued2']       # only the raw query: wrappers are not asked to decode such data
+    for tag, faults in single_faults(rec, exc_classes=excs, reply_kinds=kinds):
         yield with_faults(base, faults)
     # two faults in one call: empty reads inside the budget, then an exception / unplug at any later I/O
     if m not in SERIAL_ONLY:
@@ -528,7 +530,8 @@ def gen(rng, idx):
                 if kind == 'late':
                     faults['reply'].append({'at': [op['id'], r], 'delay': [rng.choice([26, 26, 27, 40])]})
                 elif kind == 'stale_near':
-                    faults['reply'].append(reply_fault(op['id'], r, kind, name))
+                    k2 = rng.choice(['stale_near', 'glued', 'glued2']) if op['m'] == 'query' else 'stale_near'
+                    faults['reply'].append(reply_fault(op['id'], r, k2, name))
                 elif kind in ('stale_instead', 'stale_front', 'stale_hex'):
                     w = wrong_line(rng, name)
                     f = {'at': [op['id'], r], 'stale': {'text': w + '\n', 'd': rng.choice([0, 0, 1, 25])}}
